@@ -81,7 +81,7 @@ thread_local! {
 fn check_sentence(out: &mut Out, text: &str, toks: &[Token], accepted: bool, parse_errors_only: bool) {
     GRAMMAR.with(|g| {
         let mut g = g.borrow_mut();
-        if g.is_none() { *g = crate::earley::load("/repo/grammar.y").ok(); }
+        if g.is_none() { *g = crate::earley::load(&format!("{}/grammar.y", std::env::var("GRAM_REPO").unwrap_or_else(|_| "/repo".to_owned()))).ok(); }
         let Some(gr) = g.as_ref() else { return; };
         let names: Vec<&str> = toks.iter().map(|t| crate::earley::TERMINAL_OF_TAG[tag(&t.variant)]).collect();
         let is_sentence = gr.recognises(&names);
